@@ -855,6 +855,83 @@ func txOne(L, mtu int) (violKind, detail string, nfrag int) {
 	return "", "", len(frags)
 }
 
+// longCases: long histories on ONE buffer (the enumerations above use a fresh buffer per arrival order, so
+// nothing that accumulates over hundreds of arrivals shows there). A fragment of the message being
+// reassembled (or of the next message) arrives again and again — every copy is "recognised as a
+// retransmission rather than new data" — and then the missing fragment arrives: the message must surface.
+// N crosses the buffer's fragment-count limit (1000) and, with 1 KiB fragments, its size limit (2 MB):
+// duplicates must not count against either.
+func longCases() []run.Case {
+	var cases []run.Case
+	for _, n := range []int{10, 999, 1000, 1001, 2500} {
+		for _, which := range []string{"current", "next"} {
+			for _, flen := range []int{1, 1024} {
+				n, which, flen := n, which, flen
+				cases = append(cases, run.Case{ID: fmt.Sprintf("long/dup-%s/x%d/frag%d", which, n, flen), Run: func(t *testing.T) run.Outcome {
+					o := run.Outcome{NonTrivial: true, Evals: n + 3, Class: "long-history"}
+					fb := fragmentbuffer.New()
+					body := bytes.Repeat([]byte{0xA5}, 2*flen)
+					cur := Msg{Seq: 0, Typ: 1, Body: body}
+					dupOf := cur
+					if which == "next" {
+						dupOf = Msg{Seq: 1, Typ: 1, Body: body}
+					}
+					first := EncodeFragment(dupOf, 0, flen)
+					seq := uint64(0)
+					push := func(raw []byte) error {
+						seq++
+						_, _, err := fb.Push(EncodeRecord(0, seq, raw))
+						return err
+					}
+					fail := func(key, f string, a ...any) run.Outcome {
+						o.Key, o.Violation = key, fmt.Sprintf("long/dup-%s x%d frag%d: ", which, n, flen)+fmt.Sprintf(f, a...)
+						return o
+					}
+					for i := 0; i < n; i++ {
+						if err := push(first); err != nil {
+							return fail("duplicate-fragment-refused", "copy %d of an already buffered fragment was refused: %v", i+1, err)
+						}
+						if out, _ := fb.Pop(); out != nil {
+							return fail("surfaced-before-complete", "a message surfaced after %d copies of one fragment", i+1)
+						}
+					}
+					// now the genuine rest: the current message completes (for which=="next": both fragments of
+					// message 0 first, then the second fragment of message 1)
+					var rest [][]byte
+					if which == "current" {
+						rest = [][]byte{EncodeFragment(cur, flen, flen)}
+					} else {
+						rest = [][]byte{EncodeFragment(cur, 0, flen), EncodeFragment(cur, flen, flen), EncodeFragment(dupOf, flen, flen)}
+					}
+					var got [][]byte
+					for _, r := range rest {
+						if err := push(r); err != nil {
+							return fail("fragment-refused-after-duplicates", "after %d duplicate copies a new fragment was refused: %v (duplicates were counted against the buffer limits)", n, err)
+						}
+						for out, _ := fb.Pop(); out != nil; out, _ = fb.Pop() {
+							got = append(got, out)
+						}
+					}
+					want := [][]byte{EncodeWhole(cur)}
+					if which == "next" {
+						want = append(want, EncodeWhole(dupOf))
+					}
+					if len(got) != len(want) {
+						return fail("message-not-surfaced-after-duplicates", "%d message(s) surfaced, want %d", len(got), len(want))
+					}
+					for i := range want {
+						if !bytes.Equal(got[i], want[i]) {
+							return fail("message-corrupted-after-duplicates", "message %d differs", i)
+						}
+					}
+					return o
+				}})
+			}
+		}
+	}
+	return cases
+}
+
 func txCases(b bounds) []run.Case {
 	var cases []run.Case
 	for L := 0; L <= b.TxMaxLen; L++ {
@@ -901,6 +978,7 @@ func allCases(b bounds) []run.Case {
 	var cases []run.Case
 	cases = append(cases, txCases(b)...)
 	cases = append(cases, strayCases(b.LH, b.CapH)...)
+	cases = append(cases, longCases()...)
 	cases = append(cases, oneMsgCases("rx1", 0, []string{modeEach}, b.L1, b.Cap1)...)
 	cases = append(cases, oneMsgCases("rx1", 0, []string{modePair, modeAll}, b.L1, b.Cap1p)...)
 	cases = append(cases, twoMsgCases("rx2", 0, []string{modeEach}, b.L2, b.Cap2)...)
@@ -930,6 +1008,7 @@ func TestC12(t *testing.T) {
 		}
 		seen[c.ID] = true
 	}
+	run.KeepGC = true
 	run.Main(t, "C12", cases, map[string]any{
 		"rule":                       Rule,
 		"sender":                     fmt.Sprintf("body length 0..%d x MTU 1..%d", b.TxMaxLen, b.TxMaxMTU),
